@@ -181,6 +181,21 @@ def check_steps(mon, case, obs, pred, prefix="steps"):
         mon.check(prefix + ".status_mapping", ok, lambda: witness(case, scenario=name, got=got, want=[sorted(w) for w in want]))
         for g in got:
             mon.seen("step_status", g)
+    # the step type each step is looked up with: its own keyword's, And / But / * take over the type of the step before (a
+    # Background that starts with '*' starts with a Given)
+    for inst in pred.instances:
+        want_types, prev = [], None
+        for stp in inst["steps"]:
+            kw = stp["kw"]
+            if kw in ("Given", "When", "Then"):
+                prev = kw.lower()
+            elif stp.get("first_of_background"):
+                prev = "given"
+            want_types.append(prev)
+        got_types = getattr(obs, "step_types", {}).get(inst["name"])
+        if got_types is not None and None not in want_types:
+            mon.check(prefix + ".step_types_follow_keywords", got_types == want_types,
+                      lambda: witness(case, scenario=inst["name"], got=got_types, want=want_types))
     mon.check(prefix + ".same_scenarios", set(pred.step_status) == set(obs.step_status),
               lambda: witness(case, got=sorted(obs.step_status), want=sorted(pred.step_status)))
 
